@@ -72,6 +72,31 @@ theorem toDec_lt128 (n : Nat) : ∀ d ∈ toDec n, d < 128 := by
   simp [isDigit] at this
   omega
 
+theorem toDecAux_length_le (f : Nat) : ∀ (k n : Nat) (acc : PStr), n < 10 ^ (k + 1) →
+    (toDecAux f n acc).length ≤ acc.length + (k + 1) := by
+  induction f with
+  | zero => intro k n acc _; simp [toDecAux]
+  | succ f ih =>
+    intro k n acc h
+    unfold toDecAux
+    split
+    · simp
+    · rename_i h10
+      cases k with
+      | zero => simp at h; omega
+      | succ k =>
+        have : n / 10 < 10 ^ (k + 1) := by
+          have : 10 ^ (k + 1 + 1) = 10 * 10 ^ (k + 1) := by rw [Nat.pow_succ]; omega
+          omega
+        have := ih k (n / 10) ((48 + n % 10) :: acc) this
+        simp only [List.length_cons] at this
+        omega
+
+/-- a reference to a code point of the Unicode range has at most 7 digits: `&#1114111;` is the longest -/
+theorem toDec_length_le (n : Nat) (h : n < 0x110000) : (toDec n).length ≤ 7 := by
+  have := toDecAux_length_le (n + 1) 6 n [] (by simp; omega)
+  simpa [toDec] using this
+
 /-! ### xmlcharrefreplace -/
 
 theorem xcr_append (C : Codec) (a b : PStr) :
@@ -401,6 +426,27 @@ theorem tableCodec_roundTrip (tbl : List Nat) : (tableCodec tbl).RoundTrip := by
   intro c hc
   show tbl.getD (tbl.idxOf c) undef = c
   exact (key c hc).2.1
+
+/-- efficient checkers for a decode table: every ASCII code point is in it / sits at its own index -/
+def tableAsciiOK (tbl : List Nat) : Bool := (List.range 128).all (fun c => tbl.contains c)
+def tableAsciiAt (tbl : List Nat) : Bool := (List.range 128).all (fun c => tbl.idxOf c == c)
+
+theorem tableCodec_asciiOK (tbl : List Nat) (h : tableAsciiOK tbl = true) : (tableCodec tbl).AsciiOK := by
+  intro c hc
+  have := List.all_eq_true.mp h c (List.mem_range.mpr hc)
+  simp only [tableCodec, Bool.and_eq_true, decide_eq_true_eq]
+  exact ⟨by simp [undef]; omega, this⟩
+
+theorem tableCodec_asciiCompat (tbl : List Nat) (h : tableAsciiAt tbl = true) : (tableCodec tbl).AsciiCompat := by
+  intro a s ha _
+  show (a ++ s).map (fun c => tbl.idxOf c) = a ++ s.map (fun c => tbl.idxOf c)
+  rw [List.map_append]
+  congr 1
+  conv => rhs; rw [← List.map_id a]
+  apply List.map_congr_left
+  intro c hc
+  have := List.all_eq_true.mp h c (List.mem_range.mpr (ha c hc))
+  simpa using this
 
 /-! ### predicates of the losslessness statement, table facts, reader rules on safe numbers -/
 
